@@ -1,9 +1,12 @@
 package file
 
 // C19 (white-box): the bytes Plugin.out appends to the target file for a batch
-// are exactly one newline-terminated JSON line per deliverable event, in order.
+// are exactly one newline-terminated JSON line per deliverable event, in order,
+// and the lines of earlier batches stay as they are - also when the plugin was
+// restarted in between and createNew picked the unsealed file up again.
 
 import (
+	"bytes"
 	"fmt"
 	"os"
 	"path/filepath"
@@ -31,6 +34,9 @@ type VerifC19Case struct {
 	BatchSize    int         `json:"batch_size"`
 	AvgEventSize int         `json:"avg_event_size"`
 	Batches      []c19.Batch `json:"batches"`
+	// RestartBefore[i]: the plugin is stopped and a new instance opens the target file
+	// (createNew finds the unsealed file of the earlier run) before batch i.
+	RestartBefore []bool `json:"restart_before,omitempty"`
 }
 
 func verifC19Gen(t *rapid.T) VerifC19Case {
@@ -45,6 +51,12 @@ func verifC19Gen(t *rapid.T) VerifC19Case {
 		maxLen = max(maxLen, len(b.Events))
 	}
 	c.BatchSize = maxLen + rapid.SampledFrom([]int{0, 0, 1, 100}).Draw(t, "bsx")
+	if len(c.Batches) >= 2 && rapid.IntRange(0, 2).Draw(t, "restarts") == 0 {
+		c.RestartBefore = make([]bool, len(c.Batches))
+		for i := 1; i < len(c.Batches); i++ {
+			c.RestartBefore[i] = rapid.IntRange(0, 2).Draw(t, fmt.Sprintf("restart%d", i)) == 0
+		}
+	}
 	return c
 }
 
@@ -91,37 +103,56 @@ func verifC19Run(c VerifC19Case) *vkit.Outcome {
 		verifC19Dir = d
 	}
 	verifC19Seq++
-	name := filepath.Join(verifC19Dir, fmt.Sprintf("out-%d.log", verifC19Seq))
-	f, err := os.OpenFile(name, os.O_CREATE|os.O_APPEND|os.O_RDWR|os.O_TRUNC, 0o666) // O_APPEND|O_RDWR as createNew opens it
-	if err != nil {
+	// the file is opened by the plugin's own createNew, in a directory of this case
+	dir := filepath.Join(verifC19Dir, fmt.Sprintf("case-%d", verifC19Seq)) + "/"
+	if err := os.MkdirAll(dir, 0o777); err != nil {
 		panic(err)
 	}
-	defer func() { _ = f.Close(); _ = os.Remove(name) }()
-
-	p := &Plugin{
-		config:       &Config{BatchSize_: c.BatchSize},
-		logger:       fdkit.NewLogger().Sugar(),
-		avgEventSize: c.AvgEventSize,
-		file:         f,
-		mu:           &sync.RWMutex{},
+	defer func() { _ = os.RemoveAll(dir) }()
+	open := func() *Plugin {
+		p := &Plugin{
+			config:        &Config{BatchSize_: c.BatchSize, FileMode_: 0o666},
+			logger:        fdkit.NewLogger().Sugar(),
+			avgEventSize:  c.AvgEventSize,
+			mu:            &sync.RWMutex{},
+			targetDir:     dir,
+			fileName:      "out",
+			fileExtension: ".log",
+		}
+		p.createNew()
+		return p
 	}
+	p := open()
+	defer func() { _ = p.file.Close() }()
+	name := p.file.Name()
 	var wd pipeline.WorkerData
 	earlier := map[string]bool{}
 	nontrivial := false
-	var off int64
+	var prev []byte
+	restarted := false
 	for bi, b := range c.Batches {
+		if bi < len(c.RestartBefore) && c.RestartBefore[bi] {
+			_ = p.file.Close()
+			p, wd = open(), nil
+			restarted = true
+			if p.file.Name() != name {
+				name, prev = p.file.Name(), nil // another file: the earlier lines stay where they are
+				o.Class("restart-opened-another-file")
+			}
+		}
 		bt := c19.Build(b)
 		p.out(&wd, bt.Batch)
 		bt.Release()
-		st, err := os.Stat(name)
+		cur, err := os.ReadFile(name)
 		if err != nil {
 			panic(err)
 		}
-		body := make([]byte, st.Size()-off)
-		if _, err := f.ReadAt(body, off); err != nil && len(body) > 0 {
-			panic(err)
+		if !bytes.HasPrefix(cur, prev) {
+			o.Failf(c19.P, "file:lines-of-earlier-batches-changed", "batch %d: the file held %d bytes of earlier batches, now it has %d bytes and they are not a prefix of it:\nbefore …%q\nnow    …%q", bi, len(prev), len(cur), c19.Clip(string(prev[max(0, len(prev)-80):])), c19.Clip(string(cur[max(0, len(cur)-80):])))
+			break
 		}
-		off = st.Size()
+		body := cur[len(prev):]
+		prev = cur
 		want := b.Deliverable()
 		if len(want) >= 2 {
 			nontrivial = true
@@ -133,6 +164,9 @@ func verifC19Run(c VerifC19Case) *vkit.Outcome {
 		}
 	}
 	o.Class(fmt.Sprintf("batches=%d", len(c.Batches)))
+	if restarted {
+		o.Class("restart-between-batches")
+	}
 	if nontrivial {
 		o.Nontrivial(c19.P)
 	}
